@@ -1,7 +1,7 @@
 from common import COMMON_TB
 
 CFG = {
-    "technique": "Lean 4 theorems (invariants over all operation histories of the AddrDerive model, abstract HD with the neuter/child law as hypothesis) + differential run of the real waddrmgr.Manager with an independent BIP32/legacy derivation and address-encoding oracle",
+    "technique": "Lean 4 theorems (consistency invariant Inv + index invariant IdxInv proved for Create and preserved by each of the 21 operations of the AddrDerive model; abstract HD with the laws Lawful / NoHardPub as hypotheses) + differential run of the real waddrmgr.Manager with an independent BIP32/legacy derivation and address-encoding oracle",
     "level_text": "The bookkeeping clauses of C03 (issued address = child b/i of the account key recorded for the account, address format, reported path, consecutive indices over valid children, returned private key is the key of the public key, a key is returned whenever unlocked and the account has one, imported keys/scripts unchanged, re-creation from the same seed) are Lean theorems about the executable model of waddrmgr for every history; the model is tied to the Go code op by op on random seeds / scopes / accounts / interleavings, and every address is recomputed by an independent oracle.",
     "level_note": "Partial: secp256k1, HMAC-SHA512, base58/bech32 are modelled by the abstract HD structure (law neuter(child k i) = pubChild(neuter k) i is a hypothesis); they are exercised, not proved, by the independent oracle. Invalid children cannot be provoked in Go and are covered by the model only.",
     "lean_props": ["BtcwVerif.Props.C03"],
@@ -9,11 +9,11 @@ CFG = {
     "trusted_base": COMMON_TB + [
         "hand-written model BtcwVerif/Model/AddrDerive*.lean of waddrmgr (tied by differential run on explored histories)",
         "harness/oracle/hd: independent CKDpriv/CKDpub (+btcsuite legacy serialisation rule) and P2PKH/P2WPKH/nested/P2TR encodings over btcec point arithmetic",
-        "HD law neuter(child k i) = pubChild(neuter k) i for non-hardened i (hypothesis of the theorems that need it)",
+        "HD laws: neuter(child k i) = pubChild(neuter k) i for non-hardened i; pubChild of a hardened index fails (hypotheses of the theorems)",
     ],
     "assumptions": [
         "every operation runs in its own committed walletdb transaction (roll-backs are C08)",
         "distinct derivation paths / imported keys give distinct address ids (hash collision freeness)",
-        "tree-dependent behaviours (F2, F3, O1, secret taproot rows) enter the model as a configuration probed on the real code; property theorems are stated for the fixed configuration and counter-examples for the unfixed one",
+        "the model and all theorems are the official (fixed) tree; the Go engine's probes of F2/F3/O1/taproot/lastaccount are a guard only (a reverted fix is an oracle violation and a Go/Lean disagreement), the unfixed variants survive in counter-example theorems",
     ],
 }
